@@ -125,10 +125,21 @@ def find_slice(qualname):
             while isinstance(x, ast.If) and len(x.orelse) == 1 and isinstance(x.orelse[0], ast.If):
                 x = x.orelse[0]      # the branches of an if / elif chain are siblings
                 cands.append(x)
+            if isinstance(x, ast.If) and x.orelse and not (len(x.orelse) == 1 and isinstance(x.orelse[0], ast.If)):
+                cands.extend(x.orelse)   # ... and so are the statements of its final else block
         outer = [b for b in cands if ast.unparse(b).startswith(inside) and hasattr(b, "body")]
         if len(outer) != 1:
             return None
         body = outer[0].body
+    if spec.get("else_of"):
+        # the slice lies in the final else block of the (unique) if / elif chain that starts with this prefix
+        chain = [b for b in body if isinstance(b, ast.If) and ast.unparse(b).startswith(spec["else_of"])]
+        if len(chain) != 1:
+            return None
+        x = chain[0]
+        while len(x.orelse) == 1 and isinstance(x.orelse[0], ast.If):
+            x = x.orelse[0]
+        body = x.orelse
     srcs = [ast.unparse(b) for b in body]
     i0 = [i for i, t in enumerate(srcs) if t.startswith(spec["first"])]
     i1 = [i for i, t in enumerate(srcs) if t.startswith(spec["last"])]
